@@ -6,46 +6,19 @@ Import ListNotations.
 Open Scope N_scope.
 
 (* ---- frame: the automaton only ever pushes onto out_rev ---- *)
-Definition addo (s : dst) (o : bytes) : dst :=
-  {| md := md s; cnt := cnt s; active := active s; out_rev := out_rev s ++ o |}.
+Definition addo (s : dst) (o : list bytes) : dst :=
+  {| tkz := tkz s; active := active s; out_rev := out_rev s ++ o; halt := halt s |}.
 
-Lemma emit1_app : forall a c x o, emit1 a c (x ++ o) = emit1 a c x ++ o.
-Proof. intros. unfold emit1. destruct (a && negb (isws c)); reflexivity. Qed.
-Lemma emit_app : forall l a x o, emit a l (x ++ o) = emit a l x ++ o.
-Proof. induction l as [|c l IH]; intros; [reflexivity|]. cbn [emit]. rewrite emit1_app. apply IH. Qed.
-
-Ltac ifs := repeat match goal with |- context [if ?b then _ else _] => destruct b end.
-
-Lemma tag_done_frame : forall s o e nm pv, tag_done (addo s o) e nm pv = addo (tag_done s e nm pv) o.
+Lemma apply_frame : forall t a x o ts, apply_toks t a (x ++ o) ts = addo (apply_toks t a x ts) o.
 Proof.
-  intros [m n a x] o e nm pv. unfold tag_done, addo, set_md, dead. cbn [md cnt active out_rev].
-  ifs; reflexivity.
-Qed.
-
-Lemma tag_on_frame : forall s o n e ts nm pv c,
-  tag_on (addo s o) n e ts nm pv c = addo (tag_on s n e ts nm pv c) o.
-Proof.
-  intros s o n e ts nm pv c. unfold tag_on. destruct (tag_step ts c).
-  - destruct s. reflexivity.
-  - apply tag_done_frame.
+  intros. unfold apply_toks, addo. cbn [tkz active out_rev halt].
+  rewrite !rev_append_rev, app_assoc. reflexivity.
 Qed.
 
 Lemma step_frame : forall s o c, step (addo s o) c = addo (step s c) o.
 Proof.
-  intros [m n a x] o c. unfold step. cbn [addo md cnt active out_rev].
-  destruct m; try reflexivity;
-    (destruct (MAXBUF <=? n + 1);
-     [ unfold dead, addo; cbn [md cnt active out_rev is_text_mode]; rewrite ?emit_app; reflexivity | ]);
-    try (unfold txt_on, raw_on, gt_on, set_md, with_out, addo; cbn [md cnt active out_rev pending];
-         rewrite ?emit1_app, ?emit_app; ifs; cbn [md cnt active out_rev]; rewrite ?emit1_app, ?emit_app; reflexivity).
-  - (* MTag *) apply (tag_on_frame {| md := MTag isend ts name_rev prev; cnt := n; active := a; out_rev := x |}).
-  - (* MRawM *) destruct todo as [|p todo].
-    + destruct (isws c || (c =? SLASH) || (c =? GT)).
-      * apply (tag_on_frame {| md := MRawM tag matched_rev []; cnt := n; active := a; out_rev := x |}).
-      * unfold raw_on, set_md, with_out, addo; cbn [md cnt active out_rev pending].
-        rewrite ?emit_app. ifs; cbn [md cnt active out_rev]; rewrite ?emit1_app; reflexivity.
-    + unfold raw_on, set_md, with_out, addo; cbn [md cnt active out_rev pending].
-      rewrite ?emit_app. ifs; cbn [md cnt active out_rev]; rewrite ?emit1_app; reflexivity.
+  intros [t a x h] o c. unfold step, addo. cbn [tkz active out_rev halt].
+  destruct h; [reflexivity|]. destruct (tk_step t c) as [t' ts]. apply (apply_frame t' a x o ts).
 Qed.
 
 Lemma run_frame : forall l s o, run (addo s o) l = addo (run s l) o.
@@ -54,24 +27,25 @@ Proof.
   rewrite !run_cons. rewrite step_frame. apply IH.
 Qed.
 
-(* ---- neutral markup ---- *)
+(* ---- neutral markup: complete tokens ---- *)
 (* [m] read from the state "just after a complete tag or comment, outside every pre element"
    returns to that state having handed nothing to the decoder *)
 Definition neutral (m : bytes) : Prop := forall o, run (mk MTxt 0 false o) m = mk MTxt 0 false o.
 
-Definition neutralb (m : bytes) : bool :=
-  let s := run (mk MTxt 0 false []) m in
-  match md s, out_rev s with
-  | MTxt, [] => (cnt s =? 0) && negb (active s)
-  | _, _ => false
+Definition dst_quiet0 (s : dst) : bool :=
+  match halt s, out_rev s, tmd (tkz s), tbuf (tkz s) with
+  | None, [], MTxt, [] => (tcnt (tkz s) =? 0) && negb (active s)
+  | _, _, _, _ => false
   end.
+
+Definition neutralb (m : bytes) : bool := dst_quiet0 (run (mk MTxt 0 false []) m).
 
 Lemma neutralb_sound : forall m, neutralb m = true -> neutral m.
 Proof.
   intros m H o. unfold neutralb in H.
   change (mk MTxt 0 false o) with (addo (mk MTxt 0 false []) o). rewrite run_frame.
-  destruct (run (mk MTxt 0 false []) m) as [md0 n a x]. cbn [md cnt active out_rev] in H.
-  destruct md0; try discriminate. destruct x; try discriminate.
+  destruct (run (mk MTxt 0 false []) m) as [[md0 n tb] a x h]. unfold dst_quiet0 in H. cbn [tkz tmd tcnt tbuf active out_rev halt] in H.
+  destruct h; try discriminate. destruct x; try discriminate. destruct md0; try discriminate. destruct tb; try discriminate.
   apply andb_true_iff in H as [H1 H2]. apply N.eqb_eq in H1. apply negb_true_iff in H2. subst.
   reflexivity.
 Qed.
@@ -83,56 +57,229 @@ Lemma outside_markup : forall a b m o,
   run dinit a = mk MTxt 0 false o -> neutral m ->
   armor_decode (a ++ m ++ b) = armor_decode (a ++ b).
 Proof.
-  intros a b m o Ha Hm. unfold armor_decode, armor_scan.
+  intros a b m o Ha Hm. unfold armor_decode, armor_scan, armor_words_of.
   rewrite !run_app. rewrite Ha. rewrite Hm. reflexivity.
 Qed.
 
+(* ---- neutral markup in general: text, and markup inserted in the middle of text ----
+   Outside pre, in the main loop's text state, the count and the data of the text token being read do not
+   matter for anything that follows, as long as the buffer limit is not reached before that token ends. *)
+Definition quiet (s : dst) : Prop := halt s = None /\ active s = false /\ md s = MTxt.
+
+(* same future: equal, or both reading a text token outside pre *)
+Definition tsim (s s' : dst) : Prop :=
+  halt s = None /\ halt s' = None /\ active s = false /\ active s' = false /\ out_rev s = out_rev s' /\
+  md s = md s' /\ (md s = MTxt \/ md s = MLt).
+
+(* how many more bytes of [b] are read into a text token that is being read (lt: after a '<') *)
+Definition starts_tok (c : N) : bool := is_letter c || (c =? SLASH) || (c =? BANG) || (c =? QMARK).
+Fixpoint tlen (lt : bool) (b : bytes) : N :=
+  match b with
+  | [] => 0
+  | c :: b' =>
+      if lt && starts_tok c then 1
+      else 1 + tlen (c =? LT) b'
+  end.
+
+Lemma apply_inactive_flush : forall t tb o, apply_toks t false o (flush KText tb) = st t false o.
+Proof. exact apply_flush_inactive. Qed.
+
+Lemma tsim_step : forall s s' c, tsim s s' -> cnt s + 1 < MAXBUF -> cnt s' + 1 < MAXBUF ->
+  step s c = step s' c \/
+  (tsim (step s c) (step s' c) /\ cnt (step s c) = cnt s + 1 /\ cnt (step s' c) = cnt s' + 1 /\
+   md (step s c) = (if negb (c =? LT) then MTxt else MLt) /\ (md s = MLt -> starts_tok c = false)).
+Proof.
+  intros [[m n tb] a o h] [[m' n' tb'] a' o' h'] c (H1 & H2 & H3 & H4 & H5 & H6 & H7) Hn Hn'.
+  unfold md, cnt in *. cbn [tkz tmd tcnt tbuf active out_rev halt] in *. subst h h' a a' o' m'.
+  unfold step. cbn [halt tkz active out_rev]. unfold tk_step. cbn [tmd tcnt tbuf].
+  replace (MAXBUF <=? n + 1) with false by (symmetry; apply N.leb_gt; exact Hn).
+  replace (MAXBUF <=? n' + 1) with false by (symmetry; apply N.leb_gt; exact Hn').
+  destruct H7 as [-> | ->].
+  - right. unfold txt_on. destruct (c =? LT); cbn [negb];
+      (split; [repeat split; cbn; auto|]); cbn; repeat split; try reflexivity; intros; discriminate.
+  - unfold starts_tok.
+    destruct (is_letter c); [left; rewrite !apply_flush_inactive; reflexivity|].
+    destruct (c =? SLASH); [left; rewrite !apply_flush_inactive; reflexivity|].
+    destruct (c =? BANG); [left; rewrite !apply_flush_inactive; reflexivity|].
+    destruct (c =? QMARK); [left; rewrite !apply_flush_inactive; reflexivity|].
+    right. unfold txt_on. destruct (c =? LT); cbn [negb];
+      (split; [repeat split; cbn; auto|]); cbn; repeat split; reflexivity.
+Qed.
+
+Lemma dw_flush_eof_inactive : forall k tb,
+  dw_toks false (flush k tb ++ [TkEOF]) = {| w_act := false; w_words := []; w_end := Some TEnd |}.
+Proof. intros k [|c tb]; reflexivity. Qed.
+
+Lemma tsim_finish : forall s s', tsim s s' -> finish s = finish s'.
+Proof.
+  intros [[m n tb] a o h] [[m' n' tb'] a' o' h'] (H1 & H2 & H3 & H4 & H5 & H6 & H7).
+  unfold md in *. cbn [tkz tmd tcnt tbuf active out_rev halt] in *. subst h h' a a' o' m'.
+  unfold finish. cbn [halt tkz active out_rev]. unfold tk_fin. cbn [tmd tbuf].
+  destruct H7 as [-> | ->]; cbn [is_text_mode kind_of pending push rev_append];
+    unfold apply_toks; rewrite !dw_flush_eof_inactive; reflexivity.
+Qed.
+
+Lemma tsim_run : forall b s s', tsim s s' ->
+  cnt s + tlen (match md s with MLt => true | _ => false end) b < MAXBUF ->
+  cnt s' + tlen (match md s with MLt => true | _ => false end) b < MAXBUF ->
+  finish (run s b) = finish (run s' b).
+Proof.
+  induction b as [|c b IH]; intros s s' Hs Hn Hn'.
+  - apply tsim_finish. exact Hs.
+  - rewrite !run_cons.
+    assert (Hlen : 1 <= tlen (match md s with MLt => true | _ => false end) (c :: b)).
+    { cbn [tlen]. destruct (_ && _); lia. }
+    destruct (tsim_step s s' c Hs ltac:(lia) ltac:(lia)) as [E | (Hs' & C1 & C2 & M & St)].
+    + rewrite E. reflexivity.
+    + apply IH; [exact Hs'| |].
+      * rewrite C1, M. cbn [tlen] in Hn.
+        destruct Hs as (_ & _ & _ & _ & _ & _ & [Hm|Hm]); rewrite Hm in *; cbn [andb] in Hn.
+        -- destruct (c =? LT); cbn [negb]; lia.
+        -- rewrite (St eq_refl) in Hn. destruct (c =? LT); cbn [negb]; lia.
+      * rewrite C2, M. cbn [tlen] in Hn'.
+        destruct Hs as (_ & _ & _ & _ & _ & _ & [Hm|Hm]); rewrite Hm in *; cbn [andb] in Hn'.
+        -- destruct (c =? LT); cbn [negb]; lia.
+        -- rewrite (St eq_refl) in Hn'. destruct (c =? LT); cbn [negb]; lia.
+Qed.
+
+Lemma quiet_tsim : forall s s', quiet s -> quiet s' -> out_rev s = out_rev s' -> tsim s s'.
+Proof.
+  intros s s' (A & B & C) (A' & B' & C') O. unfold tsim. rewrite C, C'. repeat split; auto.
+Qed.
+
+(* [m], read from text position [s] outside pre, hands nothing to the decoder and ends at a text
+   position: then the rest of the document is decoded as if [m] were not there, provided the text token
+   that is being read at the junction still fits the tokenizer's buffer *)
+Lemma outside_any : forall a m b s s',
+  run dinit a = s -> quiet s ->
+  run s m = s' -> quiet s' -> out_rev s' = out_rev s ->
+  cnt s + tlen false b < MAXBUF -> cnt s' + tlen false b < MAXBUF ->
+  armor_decode (a ++ m ++ b) = armor_decode (a ++ b).
+Proof.
+  intros a m b s s' Ha Qs Hm Qs' Ho Hn Hn'. unfold armor_decode, armor_scan, armor_words_of.
+  rewrite !run_app. rewrite Ha, Hm.
+  assert (E : finish (run s' b) = finish (run s b)).
+  { apply tsim_run.
+    - apply quiet_tsim; assumption.
+    - destruct Qs' as (_ & _ & ->). exact Hn'.
+    - destruct Qs' as (_ & _ & ->). exact Hn. }
+  rewrite E. reflexivity.
+Qed.
+
+(* decidable form: run [m] from count [n] with nothing buffered and nothing written *)
+Definition neutral_atb (n : N) (m : bytes) : option N :=
+  let s := run (mkb MTxt n [] false []) m in
+  match halt s, out_rev s, tmd (tkz s) with
+  | None, [], MTxt => if active s then None else Some (tcnt (tkz s))
+  | _, _, _ => None
+  end.
+
+(* the same run from any text position with that count: same count, nothing written *)
+Lemma tsim_run_state : forall m s s', tsim s s' -> cnt s = cnt s' ->
+  run s m = run s' m \/ (tsim (run s m) (run s' m) /\ cnt (run s m) = cnt (run s' m)) \/
+  (is_err (run s m) /\ is_err (run s' m)).
+Proof.
+  induction m as [|c m IH]; intros s s' Hs Hc.
+  - right. left. split; [exact Hs|exact Hc].
+  - rewrite !run_cons. destruct (N.lt_ge_cases (cnt s + 1) MAXBUF) as [Hlt|Hge].
+    + destruct (tsim_step s s' c Hs Hlt ltac:(lia)) as [E | (Hs' & C1 & C2 & _)].
+      * left. rewrite E. reflexivity.
+      * apply IH; [exact Hs'|lia].
+    + right. right.
+      destruct s as [[md0 n tb] a o h], s' as [[md0' n' tb'] a' o' h'].
+      destruct Hs as (H1 & H2 & H3 & H4 & H5 & H6 & H7). unfold md, cnt in *.
+      cbn [tkz tmd tcnt tbuf active out_rev halt] in *. subst.
+      split; apply run_err; (destruct H7 as [-> | ->]; [apply step_over_txt|apply step_over_lt]); lia.
+Qed.
+
+Lemma neutral_atb_sound : forall n m n', neutral_atb n m = Some n' ->
+  forall s, quiet s -> cnt s = n ->
+  quiet (run s m) /\ out_rev (run s m) = out_rev s /\ cnt (run s m) = n'.
+Proof.
+  intros n m n' H s Qs Hc. unfold neutral_atb in H.
+  set (s0 := mkb MTxt n [] false []) in *.
+  assert (Q0 : quiet (addo s0 (out_rev s))) by (repeat split).
+  assert (T : tsim s (addo s0 (out_rev s))) by (apply quiet_tsim; [exact Qs|exact Q0|reflexivity]).
+  assert (R0 : run (addo s0 (out_rev s)) m = addo (run s0 m) (out_rev s)) by apply run_frame.
+  destruct (run s0 m) as [[md1 n1 tb1] a1 o1 h1] eqn:E1. cbn [tkz tmd tcnt tbuf active out_rev halt] in H.
+  destruct h1; try discriminate. destruct o1; try discriminate. destruct md1; try discriminate.
+  destruct a1; try discriminate. injection H as <-.
+  assert (Q1 : quiet (run (addo s0 (out_rev s)) m) /\ out_rev (run (addo s0 (out_rev s)) m) = out_rev s /\
+               cnt (run (addo s0 (out_rev s)) m) = n1).
+  { rewrite R0. unfold addo, quiet, md, cnt. cbn. repeat split. }
+  destruct (tsim_run_state m s (addo s0 (out_rev s)) T ltac:(rewrite Hc; reflexivity)) as [E | [(T' & C') | (_ & [e He])]].
+  - rewrite E. exact Q1.
+  - destruct Q1 as ((_ & _ & Qm) & Qo & Qc). destruct T' as (A1 & _ & A3 & _ & A5 & A6 & _).
+    repeat split; try assumption; congruence.
+  - exfalso. destruct Q1 as ((Qh & _) & _). congruence.
+Qed.
+
+(* the general statement in decidable form *)
+Lemma outside_any_dec : forall a m b s n',
+  run dinit a = s -> quiet s -> neutral_atb (cnt s) m = Some n' ->
+  cnt s + tlen false b < MAXBUF -> n' + tlen false b < MAXBUF ->
+  armor_decode (a ++ m ++ b) = armor_decode (a ++ b).
+Proof.
+  intros a m b s n' Ha Qs Hm Hn Hn'.
+  destruct (neutral_atb_sound _ _ _ Hm s Qs eq_refl) as (Q' & O' & C').
+  apply (outside_any a m b s (run s m) Ha Qs eq_refl Q' O'); [exact Hn|rewrite C'; exact Hn'].
+Qed.
+
+(* bare text without '<' is neutral wherever it fits *)
+Lemma text_neutral : forall n t, noLT t -> n + blen t < MAXBUF -> neutral_atb n t = Some (n + blen t).
+Proof.
+  intros n t Ht Hn. unfold neutral_atb. rewrite run_text by assumption. reflexivity.
+Qed.
+
 (* ---- error classes ---- *)
-Definition tok_err (e : derr) : Prop := e = EStray \/ e = ENested \/ e = EOversize.
-Definition dead_ok (s : dst) : Prop := match md s with MDead e => tok_err e | _ => True end.
+Definition end_class (t : tend) : Prop :=
+  t = TEnd \/ t = TErr EStray \/ t = TErr ENested \/ t = TErr EUnterminated \/ t = TErr EOversize \/ t = TErr ETooLong.
 
-Lemma tag_done_ok : forall s e nm pv, dead_ok (tag_done s e nm pv).
+Lemma dw_tok_class : forall a t e, w_end (dw_tok a t) = Some e -> end_class e.
 Proof.
-  intros [m n a x] e nm pv. unfold tag_done, set_md, dead, dead_ok, tok_err. cbn [md cnt active out_rev].
-  ifs; cbn [md]; auto.
+  intros a t e H. unfold end_class. destruct t; cbn [dw_tok] in H.
+  - destruct a; [|discriminate]. destruct (cut_long _) as [ws [|]]; cbn in H; [|discriminate].
+    injection H as <-. auto 10.
+  - destruct (beq name PRE); [|discriminate]. destruct a; [|discriminate]. injection H as <-. auto 10.
+  - destruct (beq name PRE); [|discriminate]. destruct a; [discriminate|]. injection H as <-. auto 10.
+  - discriminate.
+  - destruct a; injection H as <-; auto 10.
+  - injection H as <-. auto 10.
 Qed.
 
-Lemma tag_on_ok : forall s n e ts nm pv c, dead_ok (tag_on s n e ts nm pv c).
+Lemma dw_toks_class : forall ts a e, w_end (dw_toks a ts) = Some e -> end_class e.
 Proof.
-  intros s n e ts nm pv c. unfold tag_on. destruct (tag_step ts c).
-  - exact I.
-  - apply tag_done_ok.
+  induction ts as [|t ts IH]; intros a e H; [discriminate|].
+  cbn [dw_toks] in H. destruct (w_end (dw_tok a t)) eqn:E.
+  - rewrite E in H. injection H as <-. eapply dw_tok_class; exact E.
+  - cbn [w_end] in H. eapply IH; exact H.
 Qed.
 
-Lemma step_ok : forall s c, dead_ok s -> dead_ok (step s c).
+Definition halt_ok (s : dst) : Prop := match halt s with Some e => end_class e | None => True end.
+
+Lemma step_ok : forall s c, halt_ok s -> halt_ok (step s c).
 Proof.
-  intros [m n a x] c H. unfold step. cbn [md cnt active out_rev].
-  destruct m; try exact H;
-    (destruct (MAXBUF <=? n + 1); [unfold dead_ok, dead, tok_err; cbn [md]; auto|]);
-    try (unfold txt_on, raw_on, gt_on, set_md, with_out, dead_ok; cbn [md cnt active out_rev];
-         ifs; cbn [md]; exact I);
-    try apply tag_on_ok.
-  destruct todo as [|p todo].
-  - destruct (isws c || (c =? SLASH) || (c =? GT)); [apply tag_on_ok|].
-    unfold raw_on, set_md, with_out, dead_ok; cbn [md cnt active out_rev]. ifs; exact I.
-  - unfold raw_on, set_md, with_out, dead_ok; cbn [md cnt active out_rev]. ifs; exact I.
+  intros [t a x h] c H. unfold step. cbn [halt tkz active out_rev]. destruct h; [exact H|].
+  destruct (tk_step t c) as [t' ts]. unfold halt_ok, apply_toks. cbn [halt].
+  destruct (w_end (dw_toks a ts)) eqn:E; [|exact I]. eapply dw_toks_class; exact E.
 Qed.
 
-Lemma run_ok : forall l s, dead_ok s -> dead_ok (run s l).
+Lemma run_ok : forall l s, halt_ok s -> halt_ok (run s l).
 Proof. induction l as [|c l IH]; intros s H; [exact H|]. rewrite run_cons. apply IH, step_ok, H. Qed.
 
-Definition end_class (t : tend) : Prop :=
-  t = TEnd \/ t = TErr EStray \/ t = TErr ENested \/ t = TErr EUnterminated \/ t = TErr EOversize.
+Lemma finish_class : forall s, halt_ok s -> end_class (snd (finish s)).
+Proof.
+  intros [t a x h] H. unfold finish. cbn [halt tkz active out_rev]. destruct h; [exact H|].
+  cbn [snd]. unfold apply_toks. cbn [halt].
+  destruct (w_end (dw_toks a (tk_fin t))) eqn:E; [eapply dw_toks_class; exact E|].
+  unfold end_class. auto 10.
+Qed.
 
 Lemma scan_end_class : forall doc, end_class (snd (armor_scan doc)).
 Proof.
-  intros doc. unfold armor_scan, finish.
-  pose proof (run_ok doc dinit I) as H. unfold dead_ok in H.
-  assert (A : forall b : bool, end_class (if b then TErr EUnterminated else TEnd)).
-  { intros [|]; unfold end_class; auto 10. }
-  destruct (md (run dinit doc)) eqn:E; cbn [snd]; try apply A.
-  unfold tok_err in H. unfold end_class.
-  destruct H as [H|[H|H]]; rewrite H; auto 10.
+  intros doc. unfold armor_scan, armor_words_of.
+  pose proof (finish_class (run dinit doc) (run_ok doc dinit I)) as H.
+  destruct (finish (run dinit doc)) as [ws e]. exact H.
 Qed.
 
 Lemma decode_classes : forall doc,
@@ -155,10 +302,10 @@ Proof.
   pose proof (scan_end_class doc) as C. unfold armor_decode.
   destruct (armor_scan doc) as [out t]. cbn [fst snd] in *. unfold decode_result.
   destruct out as [|v body].
-  - destruct C as [ -> | [ -> | [ -> | [ -> | -> ] ] ] ]; auto.
+  - destruct C as [ -> | [ -> | [ -> | [ -> | [ -> | -> ] ] ] ] ]; auto.
   - destruct (N.eqb_spec v VERSION) as [->|Hv]; cbn [negb].
     + destruct (b64_decode_seq body) as [d ev] eqn:Eb.
-      destruct ev; destruct C as [ -> | [ -> | [ -> | [ -> | -> ] ] ] ];
+      destruct ev; destruct C as [ -> | [ -> | [ -> | [ -> | [ -> | -> ] ] ] ] ];
         first [ split; [reflexivity| exists body; split; [reflexivity|exact Eb]]
               | exists body; split; [reflexivity| rewrite Eb; cbn [snd]; auto]
               | split; [reflexivity| right; exists body; split; [reflexivity| rewrite Eb; cbn [snd]; discriminate]] ].
